@@ -16,7 +16,7 @@ import z3
 from symx import loader
 from symx.core import Sym, Ctx, symarray, qval, is_nan, OutsideClaim
 from symx.report import fl, concretiser
-from symx.xh import crosshair_obligation, replay_counterexample
+from symx.xh import crosshair_obligation, replay_counterexample, real_hvsrpy
 from harness import pipeline as PP
 from harness import C01
 
@@ -236,6 +236,7 @@ def replay(spec):
         return r
     import warnings
     warnings.simplefilter("ignore")
+    real_hvsrpy()
     hvsrpy, P, T, saved = C01._patched(spec | {"nfft": NFFT})
     try:
         if spec["kind"] == "nyquist":
